@@ -630,6 +630,23 @@ def run(ck):
         ck.count('histories')
 
 
+    # the same families once more with EDGE-SHAPED random values: every SPI, nonce, IV and cookie secret the daemons draw starts / ends with 0x00 or 0xff, has its
+    # top bits set or a zero in the middle, nonce lengths sit at 16 / 17 / 255 (values an ordinary run draws once in 256 times or never)
+    with S.special_values(ck.seed * 1000003 + 15015) as sv:
+        for i in range(36 if not ck.thorough() else 1200):
+            if ck.mine(i + 3):
+                run_case(ck, 500000 + i, base + 15, dh, heavy_ok=False)
+                ck.count('special_values.histories')
+        for w in range(24 if not ck.thorough() else 600):
+            if ck.mine(w + 2):
+                run_crossing(ck, 500000 + w, ck.seed * 1000003 + 15101)
+                run_lossy(ck, 500000 + w, ck.seed * 1000003 + 15203)
+                ck.count('special_values.walks')
+        for k, v in sv.drawn.items():
+            ck.count('special_values.urandom.' + k[1], v)
+            ck.seen('special_values.shapes', (str(k[0]), k[1]))
+
+
 def verdict(ck):
     c = ck.counters
     t = ck.thorough()
@@ -655,6 +672,8 @@ def verdict(ck):
     ck.floor('crossing-exchange walks', c['crossing.walks'], 100)
     ck.floor('lossy walks', c['lossy.walks'], 40)
     ck.floor('hub walks (several IKE_SAs per daemon)', c['hub.walks'], 25)
+    ck.floor('histories and walks run with edge-shaped SPIs / nonces / IVs (leading or trailing 0x00 / 0xff, edge nonce lengths)', c['special_values.histories'] + c['special_values.walks'], 20)
+    ck.floor('... (octet count, shape) classes of urandom() results handed to the daemons', len(ck.sets['special_values.shapes']), 20)
     dims = ck.sets['conf.dims']
     for want in ('tunnel', 'transport', 'v6', 'rsa', 'ah'):
         ck.floor(f'configurations with {want}', sum(1 for d in dims if want in d), 1)
